@@ -25,7 +25,12 @@ def main():
     mod = importlib.import_module(f"vsgmc.props.{a.prop.lower()}")
     if a.replay:
         d = json.load(open(a.replay))
-        keys = mod.reproduce(d["item"])
+        from . import explore
+
+        keys = set(mod.reproduce(d["item"]))
+        ctx = explore.context_of(d["item"])
+        if ctx:
+            keys |= {k + "|" + ctx[0] for k in keys}
         print(f"replay {a.replay}: expected key {d['key']!r}; observed keys: {sorted(keys)}")
         if d["key"] in keys:
             print(f"VIOLATION property={a.prop} replay={a.replay}")
